@@ -59,7 +59,8 @@ pub fn dense_specs(tier: Tier) -> Vec<FileSpec> {
         Tier::Thorough => &[100, 700, 2000],
     };
     for &n in ns {
-        for iv in [Some(1), Some(2), Some(3), None] {
+        // intervals below, at and far above the default of 8
+        for iv in [Some(1), Some(2), Some(3), None, Some(16), Some(1000)] {
             for l in [0u8, 1, 2] {
                 for b in [Some(1024), None] {
                     v.push(FileSpec::new(
